@@ -29,6 +29,8 @@ package service
 // Service-side verification of an AP-REQ (property C01): success implies every clause of the statement, and the
 // identity handed to the application is the one sealed in the ticket.
 //@ func service.VerifyAPREQ(APReq, s) (ok, creds, err)
+//@   sets apreqAccepted := ok
+//@   sets apreqCreds := ref(creds)
 //@   ensures ok ==> err == nil && creds != nil
 //@   ensures ok ==> exists j int :: 0 <= j && j < len(s.Keytab.Entries)
 //@        && kmatch(s.Keytab.Entries[j], ite(s.ktprinc != nil, *s.ktprinc, APReq.Ticket.SName), APReq.Ticket.Realm, APReq.Ticket.EncPart.KVNO, APReq.Ticket.EncPart.EType)
@@ -88,6 +90,9 @@ package service
 // an accepted request was checked against the cache and found new (the cache's own behaviour is property C02).
 //@ ghost lastIsReplay bool
 //@ ghost lastPACBad bool
+// outcome of the last VerifyAPREQ call (property C03: success of the SPNEGO layers means an AP-REQ was accepted)
+//@ ghost apreqAccepted bool
+//@ ghost apreqCreds Ref
 
 // addEntry runs inside the caller's critical section.
 //@ func (*service.Cache).addEntry(c, sname, a)
